@@ -542,6 +542,20 @@ theorem dropStart_eq (p : List Char) : dropStart p = p.tail := by
 theorem dropBoth_eq (p : List Char) : dropBoth p = p.dropLast.tail := by
   simp [dropBoth, LIKE_CONTAINS_TRIM_END, LIKE_CONTAINS_TRIM_START, List.dropLast_eq_take]
 
+theorem dropEndG_eq (p : List Char) : dropEndG p = p.dropLast := by
+  simp [dropEndG, LIKE_GUARD_STARTSWITH, List.dropLast_eq_take]
+
+theorem dropStartG_eq (p : List Char) : dropStartG p = p.tail := by
+  simp [dropStartG, LIKE_GUARD_ENDSWITH]
+
+theorem dropBothG_eq (p : List Char) : dropBothG p = p.dropLast.tail := by
+  simp [dropBothG, LIKE_GUARD_CONTAINS_END, LIKE_GUARD_CONTAINS_START, List.dropLast_eq_take]
+
+theorem ilike_slices (p : List Char) :
+    p.take (p.length - ILIKE_GUARD_STARTSWITH) = p.dropLast ∧ p.take (p.length - ILIKE_TRIM_END) = p.dropLast ∧
+    p.drop ILIKE_GUARD_ENDSWITH = p.tail ∧ p.drop ILIKE_TRIM_START = p.tail := by
+  simp [ILIKE_GUARD_STARTSWITH, ILIKE_TRIM_END, ILIKE_GUARD_ENDSWITH, ILIKE_TRIM_START, List.dropLast_eq_take]
+
 theorem eval_eq (p s : List Char) :
     (Pred.eq p).eval (· == ·) s = (p == s) := by
   simp only [Pred.eval]
@@ -616,7 +630,8 @@ theorem head?_beq_some {p : List Char} {c : Char} (h : (p.head? == some c) = tru
 theorem classifyLike_eval (p s : List Char) :
     (classifyLike p).eval (· == ·) s = likeMatch (tokenise p) s := by
   unfold classifyLike
-  simp only [containsLikePattern_encode, dropEnd_eq, dropStart_eq, dropBoth_eq]
+  simp only [containsLikePattern_encode, dropEnd_eq, dropStart_eq, dropBoth_eq, dropEndG_eq,
+    dropStartG_eq, dropBothG_eq]
   split
   · rename_i h
     simp only [Bool.not_eq_true', ] at h
@@ -724,11 +739,17 @@ theorem isCharBoundary_length (v : List Nat) : isCharBoundary v v.length = true 
 
 
 theorem subStart_eq_clamp (n : Nat) (start : Int) : subStart n start = clampStart n start := by
-  unfold subStart clampStart
+  unfold subStart clampStart pairAt
+  simp only [SUBSTR_POS_BASE, SUBSTR_POS_CLAMP, SUBSTR_NEG_BASE, if_true, Nat.succ_ne_zero, if_false]
   split <;> split <;> (try split) <;> omega
 
+theorem subEnd_eq (n st : Nat) (len : Option Nat) :
+    subEnd n st len = match len with | some l => min (l + st) n | none => n := by
+  unfold subEnd pairAt
+  cases len <;> simp [SUBSTR_END_CLAMP]
+
 theorem subEnd_le (n st : Nat) (len : Option Nat) : subEnd n st len ≤ n := by
-  unfold subEnd; cases len <;> simp only [] <;> omega
+  rw [subEnd_eq]; cases len <;> simp only [] <;> omega
 
 theorem byteSubstring_valid (s : List Char) (start : Int) (len : Option Nat) (r : List Nat)
     (h : byteSubstring true (encode s) start len = .ok r) :
@@ -746,7 +767,7 @@ theorem byteSubstring_valid (s : List Char) (start : Int) (len : Option Nat) (r 
       · subst hs; simp [subStart, isCharBoundary_zero]
       · exact hs
     · cases len with
-      | none => simp [subEnd, isCharBoundary_length]
+      | none => simp [subEnd_eq, isCharBoundary_length]
       | some l => simpa using he
   · simp at h
 
@@ -763,10 +784,10 @@ theorem byteSubstring_eq_spec (check : Bool) (v : List Nat) (start : Int) (len :
     rw [subStart_eq_clamp]
     cases len with
     | none =>
-      simp only [subEnd]
+      simp only [subEnd_eq]
       rw [List.take_of_length_le (by simp)]
     | some l =>
-      simp only [subEnd]
+      simp only [subEnd_eq]
       rw [List.drop_take]
       by_cases hc : clampStart v.length start ≤ v.length
       · by_cases hl : l + clampStart v.length start ≤ v.length
@@ -1098,8 +1119,8 @@ theorem classifyILike_fast_ascii (eqv : Char → Char → Bool) (p s : List Char
     (hrx : (regexLike p).isMatch eqv s = likeMatchG asciiFoldEq (tokenise p) s) :
     (classifyILike p true).eval eqv s = likeMatchG asciiFoldEq (tokenise p) s := by
   unfold classifyILike
-  simp only [containsLikePattern_encode, dropEnd_eq, dropStart_eq, bytesAscii_encode, hp,
-    Bool.and_self, if_true]
+  simp only [containsLikePattern_encode, (ilike_slices p).1, (ilike_slices p).2.1,
+    (ilike_slices p).2.2.1, (ilike_slices p).2.2.2, bytesAscii_encode, hp, Bool.and_self, if_true]
   split
   · rename_i h
     simp only [Bool.not_eq_true'] at h
@@ -1169,16 +1190,22 @@ theorem slice_chars (s : List Char) (a l : Nat) :
 theorem clampStart_le (n : Nat) (start : Int) : clampStart n start ≤ n := by
   unfold clampStart; split <;> omega
 
+theorem utf8StartIdx_eq (n : Nat) (start : Int) : utf8StartIdx n start = clampStart n start := by
+  unfold utf8StartIdx clampStart
+  generalize hc : SUBSTRC_NTH_BACK_ADJ = c
+  have h1 : c = 1 := by rw [← hc]; rfl
+  subst h1
+  split
+  · split <;> omega
+  · simp only []
+    split <;> omega
+
 /-- the UTF-8 path (`utf8_bounds`) -/
 theorem substringByChar_utf8 (s : List Char) (start : Int) (len : Option Nat) :
     substringByChar false s start len = encode (substrChars s start len) := by
   unfold substringByChar utf8Bounds substrChars substrSpec
   simp only [Bool.false_eq_true, if_false]
-  have hidx : (if start ≥ 0 then (if start.toNat < s.length then start.toNat else s.length)
-      else (if (-start).toNat ≤ s.length then s.length - (-start).toNat else 0)) =
-      clampStart s.length start := by
-    unfold clampStart; split <;> split <;> omega
-  rw [hidx]
+  rw [utf8StartIdx_eq]
   generalize clampStart s.length start = a
   cases len with
   | none =>
